@@ -78,7 +78,7 @@ func verifStubDoMultiStatus(c *Client, req *http.Request) (*MultiStatus, error) 
 			return nil, err
 		}
 		if resp.StatusCode != http.StatusMultiStatus {
-			return nil, fmt.Errorf("HTTP multi-status request failed: %v", resp.Status)
+			return nil, &HTTPError{Code: resp.StatusCode, Err: fmt.Errorf("HTTP multi-status request failed: expected 207 Multi-Status")}
 		}
 		if VerifServed == nil {
 			return nil, io.ErrUnexpectedEOF
